@@ -240,8 +240,17 @@ def gen_event(rng, dests, fwd=False):
         etype = ['cond', rng.choice(etypes + [None]), rng.choice(etypes + [None])]
     else:
         etype = rng.choice(etypes)
+    filters = gen_filters(rng, fwd)
+    if kind == 'rec' and rng.random() < 0.08:
+        # a filter may return an EMPTY mapping: that is an edit (the destination gets no
+        # items at all), not a veto; only recorders accept events without a value
+        filters['list'].append({'k': 'empty', 'a': None})
+        filters['list'] = filters['list'][-3:]
+        if filters['form'] in ('omit', 'none') or (filters['form'] == 'single'
+                                                   and len(filters['list']) != 1):
+            filters['form'] = 'list'
     return {'dest': name, 'byname': rng.random() < 0.35, 'etype': etype,
-            'filters': gen_filters(rng, fwd)}
+            'filters': filters}
 
 
 def gen_evlist(rng, dests, weights, fwd=False):
@@ -451,6 +460,8 @@ def real_filter(kind, arg):
         return edzed.DataEdit.copy('value', 'v2')
     if kind == 'only':
         return edzed.DataEdit.permit('value', 'source')
+    if kind == 'empty':
+        return lambda data: {}
     raise PlanError(f"unknown filter {kind!r}")
 
 
